@@ -13,9 +13,10 @@ from . import common as C
 
 INNER_LIST = ['<<[k |-> "int"]>>', '<<[k |-> "int"], [k |-> "slice"]>>', '<<[k |-> "chan"], [k |-> "int"]>>',
               '<<[k |-> "pint"], [k |-> "dash"], [k |-> "str"]>>', '<<[k |-> "map"], [k |-> "func"], [k |-> "time"]>>',
-              '<<[k |-> "dashref"], [k |-> "int"]>>', '<<[k |-> "parr"], [k |-> "str"]>>']
+              '<<[k |-> "dashref"], [k |-> "int"]>>', '<<[k |-> "parr"], [k |-> "str"]>>',
+              '<<[k |-> "slice"], [k |-> "pint"]>>']     # every member already nil-able: the pointerified type is the type itself
 INNER = "{ %s }" % ", ".join(INNER_LIST)
-ALL_LEAF = '{"int","str","dur","time","slice","map","arr","pint","parr","pkmap"}'
+ALL_LEAF = '{"int","str","dur","time","slice","map","arr","pint","parr","pkmap","mmap"}'
 ALL_SKIP = '{"dash","dashref","chan","func","unexp"}'
 ALL_STRUCT = '{"struct","pstruct","emb"}'
 
@@ -100,7 +101,7 @@ def run_check(pid, tier, replay=None):
         rng = random.Random(seed)
         if quick:
             # all leaf / skipped / nested kinds, two seeded inner shapes; one case in six is replayed
-            inner = "{ %s }" % ", ".join(rng.sample(INNER_LIST, 2))
+            inner = "{ %s }" % ", ".join(rng.sample(INNER_LIST[:-1], 2) + INNER_LIST[-1:])
             plan = [(2, 2, 6, inner), (1, 3, 1, None)]
         else:
             plan = [(2, 2, 3, None), (3, 1, 100, None), (1, 3, 1, None)]
